@@ -63,6 +63,8 @@ type Ctx struct {
 	// objects allocated by the function whose reference has not been stored
 	// or passed anywhere yet (cannot alias anything read from the heap)
 	unescaped map[string]Term
+	// ghost components whose first key is an object reference
+	refKeyedGhost map[string]bool
 }
 
 type structInfo struct {
@@ -82,7 +84,7 @@ func newCtx(prog *ssa.Program, db *ContractDB, fn *ssa.Function, fc *FuncContrac
 	c := &Ctx{prog: prog, db: db, top: fn, fc: fc, mode: "int",
 		declared: map[string]bool{}, structs: map[string]*structInfo{}, compSort: map[string]Sort{},
 		strLits: map[string]Term{}, typeTags: map[string]int{}, notes: map[string]int{}, assumed: map[string]bool{},
-		safety: map[string]bool{}, ufs: map[string]bool{}, inlined: map[string]bool{}, opaque: map[string]bool{}, unescaped: map[string]Term{}}
+		safety: map[string]bool{}, ufs: map[string]bool{}, inlined: map[string]bool{}, opaque: map[string]bool{}, unescaped: map[string]Term{}, refKeyedGhost: map[string]bool{}}
 	if fc != nil && fc.Arith != "" {
 		switch fc.Arith {
 		case "bv":
